@@ -77,12 +77,26 @@ def run(ctx):
     core.lean_phase(ctx)
     rng = ctx.rng
     reqs, metas = [], []
+
+    def flush():
+        outs = ctx.driver.run(reqs) if reqs else []
+        for req, (op, replay, exp), out in zip(reqs, metas, outs):
+            ctx.count("model_requests")
+            got = out.get("ok", out)
+            if op == "toJson":
+                got = canon(got) if "ok" in out else out
+            if got != exp:
+                ctx.mismatch(op, replay, exp, got)
+        del reqs[:], metas[:]
+
     # registry
     if sorted(STEPS_BY_ID.keys()) != sorted(PUBLISHED):
         ctx.violation("registry", "the step registry does not hold exactly the eight published step types",
                       {"registry": sorted(STEPS_BY_ID.keys())})
     fam = schemas.family()
     for si in range(ctx.budget(14, 60)):
+        if len(reqs) >= 15000:
+            flush()     # keep memory bounded in long runs
         info = fam[si % len(fam)] if si < len(fam) or rng.random() < 0.4 else schemas.random_schema(rng)
         schema = info.schema
         ctx.driver.add_schema(info)
@@ -190,14 +204,7 @@ def run(ctx):
                 metas.append(("toJson", replay, canon(wire(j))))
                 reqs.append({"op": "fromJson", "s": sid, "k": "step", "v": wire(j)})
                 metas.append(("fromJson", replay, info.step(back)))
-    outs = ctx.driver.run(reqs) if reqs else []
-    for req, (op, replay, exp), out in zip(reqs, metas, outs):
-        ctx.count("model_requests")
-        got = out.get("ok", out)
-        if op == "toJson":
-            got = canon(got) if "ok" in out else out
-        if got != exp:
-            ctx.mismatch(op, replay, exp, got)
+    flush()
     return ctx.finish(
         rule="a case is a document / slice / fragment / mark / step (eight kinds) of a bundled-family or random schema, passed "
              "through json.dumps + json.loads; distinct by content",
